@@ -443,8 +443,13 @@ def gen_mid_op(rng, a, op, zero, base):
                 mrange[k] = rng.choice([(0, e - 1 if e > 1 else e), (s + 1, mdims[k] + 1), (e + 1, s) if e + 1 <= mdims[k] else (s, e)])
             elif mb < 0.14:
                 k = rng.randrange(len(mdims)); mdims[k] = 0
+    ty = a["type"]
+    if op == "r" and rng.random() < 0.35:
+        # read in another memory type than the stored one (conversion inside the library or inside libhdf5)
+        others = [x for x in (["r4", "r8"] if a["target"] in ("coord", "pcoord") else TYPES) if x != ty]
+        ty = "%s/%s" % (rng.choice(others), ty)
     return "%s %s %s %s t=%s sdims=%s rlo=%s s=%s m=%s;%s %d" % (
-        op, a["target"], a["name"], api, a["type"], csv(sdims), csv(rlo) if rlo is not None else "-",
+        op, a["target"], a["name"], api, ty, csv(sdims), csv(rlo) if rlo is not None else "-",
         ",".join("%d:%d" % t for t in srange), csv(mdims), ",".join("%d:%d" % t for t in mrange), base)
 
 
@@ -568,7 +573,7 @@ def lo_oracle_run(script, groups, backend):
     return res
 
 
-def mid_oracle_run(script, groups):
+def mid_oracle_run(script, groups, backend=None):
     arrays, res, zero = {}, [], False
     for ln, g in zip(script, groups):
         t = ln.split()
@@ -607,6 +612,14 @@ def mid_oracle_run(script, groups):
             else:
                 mem = [-(o["base"] + j) for j in range(n)]
                 ok = exists and pairs is not None
+                # a read that converts (memory type "a/b": a in memory, b stored) is documented as unsupported on ADF
+                # unless the memory range is the whole memory array; it must then be refused and transfer nothing
+                if ok and "/" in o["type"] and backend == "adf" and o["api"] == "general" and \
+                        any(r != (1, d) for r, d in zip(o["m"], o["mdims"])):
+                    ok = False
+                    info["conv_refused_adf"] = True
+                if "/" in o["type"]:
+                    info["converting"] = True
                 if ok:
                     for fp, mp in pairs:
                         mem[mp] = vals[fp]
@@ -620,7 +633,7 @@ def evaluate(level, backend, script, il, outcome, ml):
     """-> (failures [(index, expected, observed, info)], corr [(index, model, impl)], groups, oracle)"""
     groups, anomalies = align(script, il)
     mgroups, _ = align(script, ml) if ml is not None else (None, None)
-    oracle = lo_oracle_run(script, groups, backend) if level == "lo" else mid_oracle_run(script, groups)
+    oracle = lo_oracle_run(script, groups, backend) if level == "lo" else mid_oracle_run(script, groups, backend)
     fails, corr = [], []
     for i, ((exp, info), g) in enumerate(zip(oracle, groups)):
         if g is None:
@@ -658,6 +671,9 @@ def run_level(ck, level, exe, backend, script, tag, state):
             continue
         state["dist"][level + ":" + backend] = state["dist"].get(level + ":" + backend, 0) + 1
         state["dist"]["accepted" if info["accepted"] else "rejected"] = state["dist"].get("accepted" if info["accepted"] else "rejected", 0) + 1
+        for k_ in ("converting", "conv_refused_adf"):
+            if info.get(k_):
+                state["dist"][k_] = state["dist"].get(k_, 0) + 1
         key = hashlib.sha1((backend + script[i]).encode()).hexdigest() if info["nontrivial"] else None
         ck.case(key, sample={"level": level, "backend": backend, "op": script[i]} if key else None)
     for (i, exp, obs, info) in fails:
